@@ -77,7 +77,7 @@ def histogram1d(
     if not isinstance(data, Array):
         data_np = np.asarray(data)
         data = dask.array.from_array(
-            data_np, chunks=int(data_np.shape[0] / options["chunk_split"])
+            data_np, chunks=max(1, int(data_np.shape[0] / options["chunk_split"]))
         )
 
     if not kwargs.get("adaptive", True):
@@ -112,7 +112,8 @@ def histogramdd(data: Union[Array, ArrayLike], bins: Any = None, **kwargs):
     if not isinstance(data, Array):
         data = np.asarray(data)
         data = dask.array.from_array(
-            data, chunks=(int(data.shape[0] / options["chunk_split"]), data.shape[1])
+            data,
+            chunks=(max(1, int(data.shape[0] / options["chunk_split"])), data.shape[1]),
         )
     else:
         data = rechunk(data, {1: data.shape[1]})
